@@ -162,7 +162,7 @@ def c06(tier, replay):
         trace_notes(R, v, cov)
 
     return sem_check("C06", tier, replay, [], kinds_sem=("event", "traceinv"), use_bad=True, use_fails=lambda f: True,
-                     want=("sem", "trace"), families=["F1", "F4", "F6", "F7", "F9"] if tier == "quick" else SC.ALLF,
+                     want=("sem", "trace"), families=["F1", "F4", "F6", "F7", "F8", "F9", "F14", "F20"] if tier == "quick" else SC.ALLF + ["F14", "F20", "R"],
                      trace_every=23 if tier == "quick" else 5, max_traces=4000 if tier == "quick" else 50000,
                      extra=checked_build,
                      rule="TLC enumerates the families (haystacks mix 1-, 2-, 3- and 4-byte characters at both ends, the empty haystack "
